@@ -445,6 +445,16 @@ theorem link_lexical_counterexample :
     (Witness.viewOf Witness.msLexical).map (fun fs => Witness.contentOf fs [116]) = some (some [82]) :=
   Witness.link_lexical
 
+/-- link-target-through-link: {b/s1 -> ., b/e -> s1/b, file b/b/f}: Open("b/e")
+    is a directory (it lists f), but "b/e/f" does not resolve although b/b/f
+    does. -/
+theorem link_target_through_link_counterexample :
+    (Witness.viewOf Witness.msLinkThrough).map
+        (fun fs => (Witness.opensAsDir fs [98, 47, 101], Witness.idx fs [98, 47, 101, 47, 102],
+          Witness.idx fs [98, 47, 98, 47, 102])) =
+      some (true, none, some 4) :=
+  Witness.link_target_through_link
+
 /-- sub-links: {file a/f = "data", a/h hard link to a/f}: the view reads "data"
     through a/h; in Sub("a") the key h exists but Open("h") fails with
     not-exist. -/
